@@ -252,10 +252,77 @@ pub fn c05() -> i32 {
             }
         }
         let n = scns.len();
-        let cfg = ExploreCfg { k: Some(0), wall: Duration::from_secs(if t { 2400 } else { 45 }), ..Default::default() };
+        let cfg = ExploreCfg { k: Some(0), wall: Duration::from_secs(if t { 2400 } else { 45 }), variants: crate::explore::NET_MENU, variant_every: if t { 2 } else { 5 }, ..Default::default() };
         let out = explore(&scns, &cfg, &judge);
         rep.absorb("b: burst outages: every non-empty set of link directions (quick: single directions and all), every start, every length below the timeout", out, &props,
             json!({"k": 0, "max_len_rounds": max_len, "scenarios": n}));
+    }
+    // ---- (b3) the same over the configuration space the grids above fix: three and four peers
+    // (one link, one direction, or one peer cut off from everybody), other latencies, predictors,
+    // input programs, large delays, sparse saving, desync detection
+    {
+        let mut scns = Vec::new();
+        // (topology, window, delay, sparse, predictor, program, latency, desync interval)
+        let cfgs: Vec<(&str, usize, usize, bool, Pred, Program, i32, u32)> = vec![
+            ("1+1+1", 8, 0, false, Pred::RepeatLast, Program::Changing, 1, 0),
+            ("1+1+1", 2, 2, true, Pred::Default, Program::Runs, 2, 0),
+            ("1+1+1", 0, 1, false, Pred::RepeatLast, Program::Changing, 1, 2),
+            ("1+1+1+1", 8, 0, true, Pred::RepeatLast, Program::Sparse, 1, 3),
+            ("2+1+1", 3, 4, false, Pred::Default, Program::Changing, 0, 0),
+            ("1+1", 8, 4, false, Pred::Default, Program::Runs, 4, 1),
+            ("1+1", 2, 0, true, Pred::RepeatLast, Program::Constant, 0, 2),
+            ("1+1", 1, 5, false, Pred::RepeatLast, Program::Sparse, 2, 0),
+            ("2+2", 0, 3, false, Pred::RepeatLast, Program::Runs, 2, 1),
+            ("1+2", 12, 1, true, Pred::Default, Program::Changing, 3, 0),
+        ];
+        for (ci, (tp, w, d, sparse, pred, prog, lat, desync)) in cfgs.into_iter().enumerate() {
+            if !t && ci >= 7 {
+                continue;
+            }
+            let mut base = base_scn("c05-burst-cfg", tp, w, d, sparse, pred, prog, lat);
+            base.peers.iter_mut().for_each(|p| p.desync = desync);
+            base.name = format!("{} desync={desync}", base.name);
+            let addrs: Vec<u8> = base.peers.iter().map(|p| p.addr).collect();
+            let n = addrs.len();
+            // link sets: one direction of one link; both directions of one link; the last peer cut
+            // off from everybody (both directions); the first peer deaf (nothing reaches it)
+            let mut sets: Vec<(String, Vec<(u8, u8)>)> = vec![
+                ("b->a".into(), vec![(addrs[1], addrs[0])]),
+                ("a<->b".into(), vec![(addrs[0], addrs[1]), (addrs[1], addrs[0])]),
+            ];
+            if n >= 3 {
+                let z = addrs[n - 1];
+                sets.push(("last-peer-isolated".into(), addrs[..n - 1].iter().flat_map(|&x| [(x, z), (z, x)]).collect()));
+                sets.push(("first-peer-deaf".into(), addrs[1..].iter().map(|&x| (x, addrs[0])).collect()));
+                sets.push(("a->last only".into(), vec![(addrs[0], z)]));
+            }
+            let lens: Vec<i32> = if t { (1..=100).step_by(3).collect() } else { vec![1, 3, 8, 14, 30, 57] };
+            for (sname, links) in &sets {
+                for &start in &[0, 5] {
+                    for &len in &lens {
+                        if !t && start == 5 && len != 8 && len != 30 {
+                            continue;
+                        }
+                        let mut s = base.clone();
+                        for l in links {
+                            s.outages.push(Outage { from: l.0, to: l.1, start, len, classes: CLASS_ALL });
+                        }
+                        s.name = format!("{} burst start={start} len={len} links={sname}", base.name);
+                        s.horizon = start + len + 1;
+                        s.probe = probe_rounds(w, lat) + d as i32;
+                        if len as f64 * 16.667 + 200.0 + (2.0 * lat as f64 + 5.0) * 16.667 >= 2000.0 {
+                            s.checks = CK_C02 | CK_C04;
+                        }
+                        scns.push(s);
+                    }
+                }
+            }
+        }
+        let n = scns.len();
+        let cfg = ExploreCfg { k: Some(0), wall: Duration::from_secs(if t { 1800 } else { 45 }), ..Default::default() };
+        let out = explore(&scns, &cfg, &judge);
+        rep.absorb("b3: burst outages over ten further configurations (three/four peers with one link, one direction, an isolated peer or a deaf peer; latencies 0..4; both predictors; all input programs; delays up to 5; sparse saving; desync detection)", out, &props,
+            json!({"k": 0, "scenarios": n}));
     }
     // ---- (b2) every up/down pattern of the links, round by round, shorter than the timeout
     {
